@@ -48,7 +48,7 @@ def check(case: dict):
         # every endpoint option can be met, so a refusal there is not the documented "cannot satisfy" outcome
         always_satisfiable = (spec["ctor"] in ("gen_dfs", "gen_wilson", "gen_prim") and not spec.get("kwargs") and n >= 2
                               and ep0.get("allowed_start") is None and ep0.get("allowed_end") is None)
-        if any(s in str(e) for s in _DOC_ERR) and not always_satisfiable:
+        if (any(s in str(e) for s in _DOC_ERR) or core._raised_while_drawing_endpoints(e)) and not always_satisfiable:
             raise Discard() from e
         raise Violation(f"C03:{mode}:raises:ValueError", f"{str(e)[:200]}; spec={spec}") from e
     except Exception as e:  # noqa: BLE001
